@@ -62,7 +62,7 @@ func (v *Verifier) lemmaObligations(l *Lemma) ([]*Obligation, error) {
 		fuel[r]++
 	}
 	mk := func(suffix string, hyps []*Term, goal *Term) *Obligation {
-		return &Obligation{Name: "lemma." + l.Name + suffix, Kind: "lemma", Fn: "lemma " + l.Name, Hyps: hyps, Goal: goal, Pos: l.Where, Desc: l.Src, Opaque: opaque, Fuel: fuel, UseLemmas: l.Uses}
+		return &Obligation{Name: "lemma." + l.Name + suffix, Kind: "lemma", Fn: "lemma " + l.Name, Hyps: hyps, Goal: goal, Pos: l.Where, Desc: l.Src, Opaque: opaque, Fuel: fuel, UseLemmas: l.Uses, Expand: expandSet(l.Expand)}
 	}
 	by := strings.Fields(l.By)
 	if len(by) == 0 || by[0] == "smt" {
@@ -230,4 +230,15 @@ func matchPattern(env *Env, p trigPat, app *Term, bind map[*Term]*Term) bool {
 		}
 	}
 	return true
+}
+
+func expandSet(ns []string) map[string]bool {
+	if len(ns) == 0 {
+		return nil
+	}
+	m := map[string]bool{}
+	for _, n := range ns {
+		m[n] = true
+	}
+	return m
 }
